@@ -154,7 +154,7 @@ pub fn main(a: &Args) {
             if !set.contains(&upper) && rng.chance(1, 3) { user_words.push(upper); }
             if !set.contains(&cap) && rng.chance(1, 3) { user_words.push(cap); }
         }
-        for w in ["zzyzxq", "Qwertzuv", "naïvetéx", "harperish", "O'Zzyzx"] { user_words.push(w.chars().collect()); }
+        for w in ["zzyzxq", "Qwertzuv", "naïvetéx", "harperish", "O'Zzyzx", "colour", "fibreglass"] { user_words.push(w.chars().collect()); }
         user_words.sort(); user_words.dedup();
         let mut user = MutableDictionary::new();
         user.extend_words(user_words.iter().map(|w| (w.clone(), WordMetadata::default())));
@@ -173,7 +173,9 @@ pub fn main(a: &Args) {
                 let r = catch(|| { let doc = Document::new(&text, &PlainEnglish, &merged); sc.lint(&doc) });
                 let mut e = json!({"ev": "Spell", "word": ws, "form": "listed", "tpl": tpl, "active": "American", "entry_dialect": "none",
                     "listed_exact": true, "lower_listed_exact": false, "entry_is_lower": w.iter().all(|c| !c.is_uppercase()), "known_any_case": true,
-                    "dictionary": if order == 0 { "curated+user" } else { "user+curated" }});
+                    "dictionary": if order == 0 { "curated+user" } else { "user+curated" },
+                    // what the curated part (case-insensitively) says about the word's dialect
+                    "curated_other_dialect": dict.get_word_metadata(w).and_then(|m| m.dialect).map(|d| d != Dialect::American).unwrap_or(false)});
                 match r {
                     Err(p) => { e["ev"] = json!("SpellPanic"); e["loc"] = json!(p); }
                     Ok(lints) => {
